@@ -89,7 +89,13 @@ lazy_static! {
 
         dt.iter().map(|x| x.to_diacritic()).collect()
     };
-    static ref CARDINALS_VEC: Vec<String> = CARDINALS_MAP.iter().map(|(k,_)| k.clone()).collect();
+    static ref CARDINALS_VEC: Vec<String> = {
+        // The order in which the renderer tries the cardinals decides between equally good candidates,
+        // so it must not depend on the (per-process random) iteration order of the map: simpler graphemes first.
+        let mut v: Vec<String> = CARDINALS_MAP.iter().map(|(k,_)| k.clone()).collect();
+        v.sort_by(|a, b| a.chars().count().cmp(&b.chars().count()).then_with(|| a.cmp(b)));
+        v
+    };
     static ref CARDINALS_TRIE: Trie = {
         let mut m = Trie::new();
         CARDINALS_MAP.iter().for_each(|(k,_)| m.insert(k.as_str()));
